@@ -24,7 +24,7 @@ func resetParser() {
 
 var pathPrefixes = []string{"/", "/", "@{HOME}/", "@{run}/", "/usr/", "@{bin}/", "@{lib}/", "/etc/", "@{PROC}/", "@{user_config_dirs}/"}
 var pathComps = []string{"foo", "Foo", "bar", "*", "**", "{a,b}", "{,x/}y", "[0-9]", "[^a]*", "@{int}", "a#b", "#@{int}", "a+b",
-	"a:b", "a@b", "a,b", ".cache", "é", "a b", "x{a,b{c,d}}", "lib*.so*", "@{uid}", "a=b", "a-b_c.d", "{a,b}/"}
+	"a:b", "a@b", "a,b", ".cache", "é", "a b", "x{a,b{c,d}}", "lib*.so*", "@{uid}", "a=b", "a-b_c.d", "{a,b}/", "mysqld_safe", "unsafe", "owner", "deny"}
 
 func genPath(t *rapid.T, label string) string {
 	p := pick(t, label+"pre", pathPrefixes)
@@ -204,12 +204,14 @@ func genC09Rule(t *rapid.T) RS {
 	// Base annotations: trailing comment and the three recognised prefixes
 	if chance(t, "comment?", 3) {
 		r.F["Comment"] = pick(t, "comment", []string{" a comment", " x", " see #12", " TODO: check, this", " with (parens) and {braces} x", " a = b", "", "nospace", " \"quoted\" text", " trailing space "})
-		switch rapid.IntRange(0, 5).Draw(t, "annot") {
-		case 1:
+		// any combination of the three recognised prefixes
+		if chance(t, "file_inherit", 4) {
 			r.F["FileInherit"] = true
-		case 2:
+		}
+		if chance(t, "no_new_privs", 4) {
 			r.F["NoNewPrivs"] = true
-		case 3:
+		}
+		if chance(t, "optional", 4) {
 			r.F["Optional"] = true
 		}
 	}
